@@ -20,6 +20,7 @@ import (
 	"pgregory.net/rapid"
 
 	"verif/internal/corpus"
+	"verif/internal/custom"
 	"verif/internal/evid"
 	"verif/internal/gen"
 	"verif/internal/refjq"
@@ -314,7 +315,11 @@ func check(c isoCase) (msg, discard string) {
 	if err != nil {
 		return "", "parse-error"
 	}
-	code, err := gojq.Compile(q, append([]gojq.CompilerOption{gojq.WithVariables([]string{"$v"})}, customFuncs...)...)
+	opts := []gojq.CompilerOption{gojq.WithVariables([]string{"$v"})}
+	if strings.Contains(c.Query, "cf_") {
+		opts = append(opts, custom.Funcs...) // only where they are called: `builtins` lists them
+	}
+	code, err := gojq.Compile(q, opts...)
 	if err != nil {
 		return "", "compile-error"
 	}
@@ -323,7 +328,7 @@ func check(c isoCase) (msg, discard string) {
 	probeIn, _ := c.Spec.build()
 	mq := q
 	if strings.Contains(c.Query, "cf_") {
-		if mq, err = gojq.Parse(customDefs + c.Query); err != nil {
+		if mq, err = gojq.Parse(custom.Defs + c.Query); err != nil {
 			return "", "parse-error"
 		}
 	}
@@ -471,29 +476,7 @@ func check(c isoCase) (msg, discard string) {
 
 // ---------------------------------------------------------------------------
 
-// customFuncs: Go functions of the embedding program that KEEP what they are
-// given (they return their argument slice, their input, or an iterator over
-// them), as callers' functions may: whatever they were handed must stay what it
-// was when the call site is evaluated again, in this run or a later one.
-var customFuncs = []gojq.CompilerOption{
-	gojq.WithFunction("cf_args", 1, 3, func(_ any, xs []any) any { return xs }),
-	gojq.WithFunction("cf_pair", 2, 2, func(_ any, xs []any) any { return xs }),
-	gojq.WithFunction("cf_self", 0, 0, func(x any, _ []any) any { return x }),
-	gojq.WithFunction("cf_wrap", 1, 1, func(x any, xs []any) any { return []any{x, xs} }),
-	gojq.WithIterFunction("cf_each", 1, 3, func(_ any, xs []any) gojq.Iter { return gojq.NewIter(xs...) }),
-	gojq.WithIterFunction("cf_twice", 1, 1, func(_ any, xs []any) gojq.Iter { return gojq.NewIter[any](xs, xs) }),
-}
-
-const customDefs = `def cf_args($a): [$a]; def cf_args($a; $b): [$a, $b]; def cf_args($a; $b; $c): [$a, $b, $c]; def cf_pair($a; $b): [$a, $b]; def cf_self: .; def cf_wrap($a): [., [$a]];
-def cf_each($a): $a; def cf_each($a; $b): $a, $b; def cf_each($a; $b; $c): $a, $b, $c; def cf_twice($a): [$a], [$a]; `
-
-var customPrograms = []string{
-	".[]? | cf_pair(.; \"x\")", "cf_pair(.a?; .b?)", "[.[]? | cf_args(.)]", "[.[]? | cf_args(.; 1; [.])]", "[cf_pair(1; 2), cf_pair(3; 4)]", "[range(3) | cf_pair(.; . + 1)]", "[.[]? | cf_wrap(.)]", "[cf_each(.[]?)]", "[.[]? | cf_each(.; [.])]",
-	"[.[]? | cf_twice(.)]", "def f: cf_pair(.; 0); [.[]? | f]", "reduce .[]? as $x ([]; . + [cf_args($x)])", "[foreach .[]? as $x (0; . + 1; cf_pair($x; .))]", "[.[]? | cf_self] | .[0]? |= 1", "[limit(2; repeat(cf_args(.)))]",
-	"[cf_pair(.[]?; $v)]", "cf_args($v) | .[0][0]? = 9", "[.[]? | cf_pair(.; .) | .[0]? = 5]", "[.[]? | [cf_each(.; .)]]", "[paths | cf_args(.)]", "(cf_args(.) | .[0]), .", "[cf_args(.[]?), cf_args(.[]?)]", "[.[]? as $x | cf_pair($x; [$x])] | map(.[1])",
-}
-
-var mutating = append(append([]string{}, gen.MutatingPrograms...), customPrograms...)
+var mutating = append(append([]string{}, gen.MutatingPrograms...), custom.Programs...)
 
 func specGen() *rapid.Generator[inputSpec] {
 	elem := gen.Value(gen.Opt{Reps: true, MaxDepth: 2, MaxWidth: 3, SmallInts: true})
